@@ -181,14 +181,14 @@ macro_rules! plain {
 plain!(c16_k0_t13, c18_k0_t13, 0, 13);
 plain!(c16_k1_t13, c18_k1_t13, 1, 13);
 plain!(c16_k2_t13, c18_k2_t13, 2, 13);
-plain!(c16_k3_t13, c18_k3_t13, 3, 13);
+plain!(c16_k8_t13, c18_k8_t13, 8, 13);
 plain!(c16_k10_t13, c18_k10_t13, 10, 13);
 plain!(c16_k11_t13, c18_k11_t13, 11, 13);
 plain!(c16_k12_t13, c18_k12_t13, 12, 13);
 plain!(c16_k13_t13, c18_k13_t13, 13, 13);
 plain!(c16_k14_t13, c18_k14_t13, 14, 13);
 plain!(c16_k15_t13, c18_k15_t13, 15, 13);
-plain!(c16_k5_t13, c18_k5_t13, 5, 13);
+plain!(c16_k9_t13, c18_k9_t13, 9, 13);
 plain!(c16_k6_t13, c18_k6_t13, 6, 13);
 plain!(c16_k7_t13, c18_k7_t13, 7, 13);
 // a state query against every reply line (13 states from two addresses, ack, unknown frame)
